@@ -85,4 +85,15 @@ CLAIMED = {
                 "Reasoned exemptions in kv/rules/c03.py (READ_EXEMPT, WRITE_EXEMPT, ENTRY_EXEMPT).",
         "technique": "static Nexus graph by constant propagation + interprocedural effects + must-pass-through marks (callback-aware) per entry point",
     },
+    "C10": {
+        "text": "Formula-shape rules decided by comparing canonical forms (polynomials with Fraction coefficients over attribute/call atoms; local temporaries "
+                "inlined along def-use chains, accumulate-in-loop idiom summarised as SUM, bound variables alpha-normalised): ndf of FitBase, the parametric "
+                "model, both constraint classes and MultiFit equals data points - parameters + fixed + constraint measurements; chi2 probability is "
+                "1 - chi2.cdf(cost - determinant, ndf) and every determinant subtraction in FitBase/MultiFit.chi2_probability is guarded by the flag saying "
+                "the cost contains that term; goodness of fit = full cost with zeroed determinant minus the handle at model := data (argument positions "
+                "looked up by the cost function's own names), the Gaussian-approximation override restores its flag; MultiFit overrides keep the base terms.",
+        "note": "Numerical values are not decided. A formula rewritten with symbols the specification does not mention is reported as ANALYSIS-ERROR "
+                "(cannot be judged), never as a violation; a dropped/changed term, coefficient, sign or argument order is a violation.",
+        "technique": "expression normalisation to canonical polynomial forms + structural guard rules (no paths, no solver)",
+    },
 }
